@@ -94,6 +94,7 @@ fn main() {
             parts.push(make_part("sched-queue", "SCHED", cli.cases(8_000, 400_000), queue::c17_queue_strategy, |_| (), |_, c| queue::run_queue_case("C17", c)));
             parts.push(make_part("seq-model", "SCHED", cli.cases(8_000, 400_000), queue::seq_strategy, |_| (), |_, c| queue::run_seq_case(c)));
             parts.push(make_part("sched-queue-edge", "SCHED", cli.cases(6_000, 300_000), queue::edge_strategy, |_| (), |_, c| queue::run_edge_case("C17", c)));
+            parts.push(make_part("sched-server", "SCHED", cli.cases(1_500, 80_000), || server::server_strategy(5, false), |_| (), |_, c| server::run_server_case("C17", c)));
             parts.push(make_part("sweep-queue", "SCHED", sweep_cases, queue::c17_queue_strategy, |_| (), move |_, c| {
                 sched::sweep_verdict(sweep_depth, sweep_cap, &|t| {
                     let mut c2 = c.clone();
@@ -102,7 +103,7 @@ fn main() {
                 })
             }));
             (
-                "part sched-queue: (a) counting: 1-4 receivers using recv() only, 0-2 pushers, u generated unblock() calls at generated moments then topped up to one per receiver: #recv errors <= #unblock calls at every return, = #receivers at the end, elements conserved and ordered; (b) mixed recv/recv_timeout/try_recv lists with unblocks in flight: conservation, try_recv performs zero waits on the condition variable; (c) timed receivers only: an empty-handed recv_timeout(T) takes >= T-1 ms and (single timer source) <= 2T of virtual time; part seq-model: single-task histories of push/unblock/try_recv/recv_timeout/recv against a reference model (FIFO of requests + count of pending unblocks): requests come out in order, an empty-handed return with a request queued uses up exactly one unblock, totals match, timed bounds exact; part sched-queue-edge as in C07 with the release accounting; part sweep-queue: the sched-queue scenarios under every schedule with one (quick) / up to two (thorough) deviations from the default schedule; non-trivial: an unblock issued and a receiver really parked (sched-queue) / a receive executed with both a request and an unblock pending (seq-model)",
+                "part sched-server: the whole Server over the in-memory listener with application threads that use recv / recv_timeout / try_recv / one incoming_requests() iterator stepped again and again; in a seventh of the cases unblock() is called once before any of them exists and they only poll with try_recv, in another seventh it is called while iterators are being stepped: every request is still delivered, and the empty-handed iterator steps never outnumber the unblock() calls; part sched-queue: (a) counting: 1-4 receivers using recv() only, 0-2 pushers, u generated unblock() calls at generated moments then topped up to one per receiver: #recv errors <= #unblock calls at every return, = #receivers at the end, elements conserved and ordered; (b) mixed recv/recv_timeout/try_recv lists with unblocks in flight: conservation, try_recv performs zero waits on the condition variable; (c) timed receivers only: an empty-handed recv_timeout(T) takes >= T-1 ms and (single timer source) <= 2T of virtual time; part seq-model: single-task histories of push/unblock/try_recv/recv_timeout/recv against a reference model (FIFO of requests + count of pending unblocks): requests come out in order, an empty-handed return with a request queued uses up exactly one unblock, totals match, timed bounds exact; part sched-queue-edge as in C07 with the release accounting; part sweep-queue: the sched-queue scenarios under every schedule with one (quick) / up to two (thorough) deviations from the default schedule; non-trivial: an unblock issued and a receiver really parked (sched-queue) / a receive executed with both a request and an unblock pending (seq-model)",
                 sched_assumptions,
             )
         }
